@@ -24,17 +24,11 @@ def sh(cmd, cwd=None, timeout=3600):
 
 
 def library_patch(wt):
-    """diff of tracked src files, with any `mod demo_*;` wiring line removed from lib.rs hunks"""
-    rc, diff = sh("git diff -- src Cargo.toml", cwd=wt)
-    # drop demo wiring (a `#[cfg(test)] mod demo_xxx;` pair added to lib.rs)
-    out, skip = [], 0
-    lines = diff.split("\n")
-    cleaned = []
-    for l in lines:
-        if re.match(r"^\+\s*(#\[cfg\(test\)\]\s*)?mod demo_\w+;\s*$", l) or (l.startswith("+#[cfg(test)]") and False):
-            continue
-        cleaned.append(l)
-    return "\n".join(cleaned)
+    """diff of the tracked files that make up the library change (default: everything under src/ and Cargo.toml;
+    MUTANT_PATCH_FILES="a b" restricts it, e.g. to leave out the wiring of a unit-test demonstration)"""
+    files = os.environ.get("MUTANT_PATCH_FILES", "src Cargo.toml")
+    rc, diff = sh(f"git diff -- {files}", cwd=wt)
+    return diff.rstrip("\n")
 
 
 def demo_files(wt):
@@ -69,8 +63,12 @@ def verify(wt):
         return ok, outs
     with_change, o1 = run_demo()
     res["demo_with_change_passes"] = with_change
-    rc, out = sh("cargo test --workspace --offline 2>&1 | grep -E '^test result|FAILED|failed' ", cwd=wt)
-    res["suite_with_change"] = out.strip().splitlines()
+    suite = []
+    for part in ("--lib", "--test runlib", "--doc"):
+        skip = " -- --skip demo_" if part == "--lib" else ""
+        rc, out = sh(f"cargo test --offline {part}{skip} 2>&1 | grep -E '^test result' ", cwd=wt)
+        suite.append(part + ": " + out.strip())
+    res["suite_with_change"] = suite
     # stash only tracked changes under src (the library change); keep demo files; keep lib.rs wiring if any
     patch = library_patch(wt)
     open(os.path.join(wt, ".libpatch.diff"), "w").write(patch + "\n")
@@ -86,7 +84,7 @@ def verify(wt):
         if rc != 0:
             res["error"] = "could not re-apply the library patch: " + out[-300:]
     res["confirmed"] = (not with_change) and res.get("demo_without_change_passes") is True and \
-        all("FAILED" not in l and "failed;" not in l.replace(" 0 failed;", "") for l in res["suite_with_change"]) and bool(names or unit)
+        all("test result: ok" in l and " 0 failed" in l for l in res["suite_with_change"]) and bool(names or unit)
     return res
 
 
